@@ -450,6 +450,25 @@ theorem rescale_spec_frame (st : Steps) (cols : Frame) (index : List Nat)
       rfl
   rw [this]; rfl
 
+/-- every requested simulant keeps its place and receives a number: the labels of the rescaled Series are
+the labels of the annual rates, in order. Whether a simulant is tracked is not an input of the model –
+`Steps.sim` (the `step_size` column of the state table) is total over simulant labels – so this holds
+for untracked simulants in the request exactly as for tracked ones (the code reads the steps through a
+view that includes the `tracked` column, i.e. one that does not filter). -/
+theorem rescale_labels (st : Steps) (v : Series) :
+    ∃ w, rescale st (.se v) = some (.se w) ∧ w.map (·.1) = v.map (·.1) := by
+  refine ⟨_, rescale_spec st v, ?_⟩
+  rw [List.map_map]; rfl
+
+theorem rescale_labels_frame (st : Steps) (cols : Frame) (index : List Nat)
+    (h : ∀ c ∈ cols, c.2.map (·.1) = index) :
+    ∃ out, rescale st (.fr cols) = some (.fr out) ∧ ∀ c ∈ out, c.2.map (·.1) = index := by
+  refine ⟨_, rescale_spec_frame st cols index h, ?_⟩
+  intro c hc
+  obtain ⟨c0, hc0, rfl⟩ := List.mem_map.mp hc
+  simp only [List.map_map]
+  exact h c0 hc0
+
 /-- a value without an index – a `np.ndarray` – is scaled by the global step, entry by entry (the code
 cannot know whose rates these are) -/
 theorem rescale_spec_array (st : Steps) (xs : List Rat) :
